@@ -94,20 +94,26 @@ func (n probeTagNode) Execute(ctx *pongo2.ExecutionContext, w pongo2.TemplateWri
 	return nil
 }
 
+func probeTagParser(n string) pongo2.TagParser {
+	return func(doc *pongo2.Parser, start *pongo2.Token, arguments *pongo2.Parser) (pongo2.INodeTag, *pongo2.Error) {
+		probeCounts[n+":parse"]++
+		return probeTagNode{n}, nil
+	}
+}
+
+func probeFilterFn(n string) pongo2.FilterFunction {
+	return func(in *pongo2.Value, param *pongo2.Value) (*pongo2.Value, *pongo2.Error) {
+		probeCounts[n+":call"]++
+		return pongo2.AsValue("<" + n + ":" + in.String() + ">"), nil
+	}
+}
+
 func init() {
 	for _, n := range []string{"probe_t0", "probe_t1"} {
-		n := n
-		pongo2.RegisterTag(n, func(doc *pongo2.Parser, start *pongo2.Token, arguments *pongo2.Parser) (pongo2.INodeTag, *pongo2.Error) {
-			probeCounts[n+":parse"]++
-			return probeTagNode{n}, nil
-		})
+		pongo2.RegisterTag(n, probeTagParser(n))
 	}
 	for _, n := range []string{"probe_f0", "probe_f1"} {
-		n := n
-		pongo2.RegisterFilter(n, func(in *pongo2.Value, param *pongo2.Value) (*pongo2.Value, *pongo2.Error) {
-			probeCounts[n+":call"]++
-			return pongo2.AsValue("<" + n + ":" + in.String() + ">"), nil
-		})
+		pongo2.RegisterFilter(n, probeFilterFn(n))
 	}
 }
 
@@ -518,6 +524,14 @@ func c03Gen(tp *Tapes) *c03Spec {
 				op.Kind = "bantag"
 			}
 			op.Target = t.name
+		case k == 8 && g.Draw(3) == 0:
+			// housekeeping calls that must not touch the sandbox: cache cleaning, and
+			// re-registering a probe tag/filter with an equivalent implementation
+			op.Kind = []string{"cleancache", "cleancache-all", "replace-tag", "replace-filter"}[g.Draw(4)]
+			op.Target = []string{"probe_t0", "probe_t1"}[g.Draw(2)]
+			if op.Kind == "replace-filter" {
+				op.Target = []string{"probe_f0", "probe_f1"}[g.Draw(2)]
+			}
 		case k == 9 && len(creates) > 0:
 			op.Kind = "exec"
 			op.ExecOf = creates[g.Draw(len(creates))]
@@ -694,6 +708,18 @@ func (s *c03Side) do(i int, op c03Op, withBans bool) (r *c03Res) {
 	case "banfilter":
 		if withBans {
 			r.BanErr = errStr(set.BanFilter(op.Target))
+		}
+	case "cleancache":
+		set.CleanCache("no/such/name.tpl")
+	case "cleancache-all":
+		set.CleanCache()
+	case "replace-tag":
+		if withBans { // the registry is global: once per op, not once per side
+			r.BanErr = errStr(pongo2.ReplaceTag(op.Target, probeTagParser(op.Target)))
+		}
+	case "replace-filter":
+		if withBans {
+			r.BanErr = errStr(pongo2.ReplaceFilter(op.Target, probeFilterFn(op.Target)))
 		}
 	case "exec":
 		tpl := s.tpls[op.ExecOf]
@@ -887,6 +913,16 @@ opsLoop:
 					bset[op.Target] = true
 				}
 			}
+		case "cleancache", "cleancache-all", "replace-tag", "replace-filter":
+			res := sys.do(i, op, true)
+			twin.do(i, op, false)
+			out.dig(op.Kind, res.BanErr)
+			out.probe("housekeeping_op")
+			trace = append(trace, map[string]any{"op": i, "kind": op.Kind, "set": op.Set, "target": op.Target, "result": res.BanErr})
+			if res.BanErr != "" {
+				viol("housekeeping_failed", op.Kind, fmt.Sprintf("op %d: %s(%q) failed: %s", i, op.Kind, op.Target, res.BanErr), "nil", res.BanErr)
+			}
+			// the model is untouched: bans and the frozen flag stay exactly as they were
 		case "create", "exec":
 			src := op
 			if op.Kind == "exec" {
